@@ -14,8 +14,13 @@ pub fn oracle(p: &Program) -> Vec<Violation> {
     let mut out: Vec<Violation> = Vec::new();
     let mut prev: Option<Vec<u8>> = None;
     let name = p.kind.name();
+    let mut tr = Tracker::new(p, &flat);
     let res = drive(p, &flat, &mut |o: &Obs| {
         let after = if o.step == 0 { "ctor".to_string() } else { flat[o.step - 1].label().to_string() };
+        // a valid operation that panics (in this build profile) delivers no table at all
+        if tr.observe(&flat, o.step, o.refused) == Some("refused-valid") && !out.iter().any(|v| v.kind == "refused-valid") {
+            out.push(Violation::new("C01", &format!("{}/{}", name, after), "refused-valid", String::new(), format!("step={} op={}", o.step, trunc(format!("{:?}", flat[o.step - 1]), 200))));
+        }
         let mut bad = |what: &str, sum: u8| {
             if out.len() < 8 {
                 out.push(Violation::new(
@@ -59,7 +64,9 @@ pub fn oracle(p: &Program) -> Vec<Violation> {
         }
         prev = Some(o.image.to_vec());
     });
-    let _ = res;
+    if res.ctor_refused && !ctor_refused(p) {
+        out.push(Violation::new("C01", name, "refused-valid", "ctor".into(), format!("{:?}", p.ctor)));
+    }
     out
 }
 
